@@ -32,8 +32,8 @@ func Open(f *os.File) (*DMG, error) {
 	}
 	// read and parse signature
 	if d.rsf.SignatureLength != 0 {
-		if d.rsf.SignatureLength > 10e6 {
-			return nil, fmt.Errorf("unreasonably large dmg signature of %d bytes", d.rsf.SignatureLength)
+		if d.rsf.SignatureLength < 0 || d.rsf.SignatureLength > 10e6 {
+			return nil, fmt.Errorf("unreasonable dmg signature length of %d bytes", d.rsf.SignatureLength)
 		}
 		d.sigBlob = make([]byte, d.rsf.SignatureLength)
 		if _, err := f.ReadAt(d.sigBlob, d.rsf.SignatureOffset); err != nil {
